@@ -192,6 +192,11 @@ func (r *readObjectCloser) Read(p []byte) (int, error) {
 			r.b.S.Fired(d.Fault)
 			return 0, d.Err("read " + r.b.label(r.path))
 		}
+		if d.Fault == "short-read" && len(p) > 1 {
+			// legal behaviour of any io.Reader: fewer bytes than asked for and no error
+			r.b.S.Fired(d.Fault)
+			return r.ReadObjectCloser.Read(p[:1+d.Arg%(len(p)-1)])
+		}
 	}
 	return r.ReadObjectCloser.Read(p)
 }
@@ -256,7 +261,7 @@ func (w *writeObjectCloser) Close() error {
 		return ierr
 	case "rename-err":
 		if w.b.Hooks != nil && w.osName != "" && w.atomic {
-			w.b.Hooks.setRenameFault(w.osName)
+			w.b.Hooks.setRenameFault(w.osName, d.Salt%2 == 0)
 			err := w.WriteObjectCloser.Close()
 			w.b.Hooks.restoreRename(w.osName)
 			return err
@@ -300,6 +305,10 @@ type writeFault struct {
 }
 
 type renameTrick struct {
+	// vanish: the rename fails because the temporary file is gone (ENOENT - a cache cleaner or
+	// a sweeper of temporary files got there first); otherwise because a directory sits at the
+	// destination
+	vanish  bool
 	applied bool
 	dest    string
 	backup  string
@@ -365,9 +374,9 @@ func (h *Hooks) setCloseFault(name string, err error) {
 	h.mu.Unlock()
 }
 
-func (h *Hooks) setRenameFault(name string) {
+func (h *Hooks) setRenameFault(name string, vanish bool) {
 	h.mu.Lock()
-	h.renameFault[name] = &renameTrick{}
+	h.renameFault[name] = &renameTrick{vanish: vanish}
 	h.mu.Unlock()
 }
 
@@ -415,7 +424,7 @@ func (h *Hooks) Point(ctx context.Context, name string, args []string) {
 		if label := h.rawLabel(tmp); label != "" {
 			d := h.S.YieldCurrentAs("rename", label)
 			if d.Fault == "rename-err" {
-				h.setRenameFault(tmp)
+				h.setRenameFault(tmp, d.Salt%2 == 0)
 			}
 		}
 		h.mu.Lock()
@@ -425,6 +434,13 @@ func (h *Hooks) Point(ctx context.Context, name string, args []string) {
 		h.mu.Unlock()
 		if yield {
 			h.S.YieldCurrent("rename", label, sched.NoFault())
+		}
+		if t != nil && t.vanish {
+			// make the real os.Rename fail with ENOENT: the temporary file is gone
+			if err := os.Remove(tmp); err == nil {
+				h.S.Fired("rename-err")
+			}
+			return
 		}
 		if t != nil {
 			// make the real os.Rename fail: a directory sits at the destination
@@ -464,7 +480,7 @@ func (h *Hooks) Fault(ctx context.Context, name string, arg string, err error) e
 			return d.Err("close " + label)
 		}
 		if d.Fault == "rename-err" {
-			h.setRenameFault(arg)
+			h.setRenameFault(arg, d.Salt%2 == 0)
 		}
 		return err
 	}
